@@ -807,6 +807,202 @@ example :
     ∧ isOk (adaptUnion2 (adaptData [⟨"a", .scalar "int", some (.lit "int" "1")⟩] "d.Other" []) (adapt exE 8 "m.Base" none)
           (.spec (some "m.Other") [("a", .lit "int" "3")] [])) = false := by decide
 
+/-! ## `Union[Dataclass, Class]`: what is finally BUILT (the final check re-adapts the stored value) -/
+
+/-- the dataclass `d.Other(a: int = 1)` next to the classes of `exE` -/
+def exFields : List IParam := [⟨"a", .scalar "int", some (.lit "int" "1")⟩]
+def exDataFirst : UnionTy := ⟨exFields, "d.Other", "m.Base", true⟩
+def exClsFirst : UnionTy := ⟨exFields, "d.Other", "m.Base", false⟩
+
+/-- FULL STATEMENT (false in the code and in the faithful model): for every accepted `{class_path: cp, …}` the class that
+    is finally built is the class `cp` names.
+    OPEN FINDING C14-union-dataclass-spec-rebuilt-as-class-arm, negation witness: `Union[m.Base, d.Other]` given
+    `{class_path: d.Other, init_args: {a: 3}}` — the dataclass member stores the fields `{a: 3}`, the final check hands
+    them to the first member, `m.Base` (concrete, has a parameter `a`), and `m.Base(a=3)` is built.  With the members in
+    the other order the dataclass is built. -/
+theorem C14_union_rebuilt_witness :
+    (match unionAll exE 8 exClsFirst [.spec (some "d.Other") [("a", .lit "int" "3")] []] with
+     | .ok (some r) => builtClass "d.Other" r == some "m.Base"
+     | _ => false) = true
+    ∧ (match unionAll exE 8 exDataFirst [.spec (some "d.Other") [("a", .lit "int" "3")] []] with
+       | .ok (some r) => builtClass "d.Other" r == some "d.Other"
+       | _ => false) = true := by decide
+
+/-- the class of the finding, as a decidable predicate on what the first assignment stored: the class member is listed
+    first and takes the stored field namespace as init_args of its own (implicit) class_path -/
+def RebuiltClass (E : ClassEnv) (fuel : Nat) (U : UnionTy) (s : Val) : Prop :=
+  U.dataFirst = false ∧ ∃ kv, s = .bare kv ∧ isOk (adapt E fuel U.b none (.bare kv)) = true
+
+/-- OUTSIDE that class the final check keeps the member that took the value: an accepted class_path that is finally
+    stored (and built) as the declared dataclass IS the dataclass's own path, with valid fields; anything else passed
+    the class member's import / subclass check both times and holds init_args valid for that class.  (`hnd`: the
+    dataclass is not itself importable as a subclass of the class member.) -/
+theorem C14_union_built_partial (E : ClassEnv) (fuel : Nat) (U : UnionTy) (cp : String) (ia dk : KV) (s r : Val)
+    (hsc : ScalarFields U.fields)
+    (h1 : unionAdapt E fuel U none (.spec (some cp) ia dk) = .ok s)
+    (h2 : unionAdapt E fuel U none s = .ok r)
+    (hex : ¬ RebuiltClass E fuel U s)
+    (hnd : ∀ c ia' dk', s = .spec (some c) ia' dk' → c ≠ U.decl) :
+    (cp = U.decl ∧ ∃ kv kv', s = .bare kv ∧ r = .bare kv' ∧ builtClass U.decl r = some U.decl ∧ ArgsValid U.fields kv')
+    ∨ (ElemChecked E U.b s ∧ ElemChecked E U.b r) := by
+  have hda : ∀ v, dataArm U none v = adaptData U.fields U.decl [] v := fun v => by simp [dataArm, dataPrev]
+  -- what the first assignment stored
+  have hs : (cp = U.decl ∧ ∃ kv, s = .bare kv ∧ ArgsValid U.fields kv) ∨ ElemChecked E U.b s := by
+    have hd : ∀ s, dataArm U none (.spec (some cp) ia dk) = .ok s → (cp = U.decl ∧ ∃ kv, s = .bare kv ∧ ArgsValid U.fields kv) :=
+      fun s hs => C14_data_class_path_identity U.fields U.decl cp [] ia dk s (argsValid_nil _) (by rw [← hda]; exact hs)
+    have hc : ∀ s, adapt E fuel U.b none (.spec (some cp) ia dk) = .ok s → ElemChecked E U.b s :=
+      fun s hs => C14_checked_step E fuel U.b none _ s hs (by intro _ _ _ hp; cases hp)
+    simp only [unionAdapt] at h1
+    split at h1 <;> simp only [adaptUnion2] at h1 <;> split at h1
+    · rename_i s' hs'; cases h1; exact Or.inl (hd _ hs')
+    · exact Or.inr (hc _ h1)
+    · rename_i s' hs'; cases h1; exact Or.inr (hc _ hs')
+    · exact Or.inl (hd _ h1)
+  rcases hs with ⟨hcp, kv, rfl, hv⟩ | hchk
+  · -- stored as fields: the dataclass member takes them again
+    obtain ⟨kv', hm⟩ := mergeArgs_ok_of_valid (fun _ _ _ => .error .notSpec) U.fields hsc kv [] hv
+    have hdata : dataArm U none (.bare kv) = .ok (.bare kv') := by simp [hda, adaptData, dataFieldsOf, hm]
+    have hv' : ArgsValid U.fields kv' := mergeArgs_valid _ U.fields kv [] kv' (argsValid_nil _) hm
+    refine Or.inl ⟨hcp, kv, kv', rfl, ?_, ?_, hv'⟩
+    · simp only [unionAdapt] at h2
+      split at h2 <;> simp only [adaptUnion2] at h2
+      · rw [hdata] at h2; cases h2; rfl
+      · rename_i hdf
+        split at h2
+        · rename_i r' hr'
+          exact absurd ⟨by simpa using hdf, kv, rfl, by simp [isOk, hr']⟩ hex
+        · rw [hdata] at h2; cases h2; rfl
+    · have : r = .bare kv' := by
+        simp only [unionAdapt] at h2
+        split at h2 <;> simp only [adaptUnion2] at h2
+        · rw [hdata] at h2; cases h2; rfl
+        · rename_i hdf
+          split at h2
+          · rename_i r' hr'
+            exact absurd ⟨by simpa using hdf, kv, rfl, by simp [isOk, hr']⟩ hex
+          · rw [hdata] at h2; cases h2; rfl
+      rw [this]; rfl
+  · -- stored as a class spec: the dataclass member rejects it, the class member checks it again
+    obtain ⟨c, ia', dk', path, params, rfl, hci, hvv⟩ := hchk
+    have hne : c ≠ U.decl := hnd c ia' dk' rfl
+    have hdata : ∀ x, dataArm U none (.spec (some c) ia' dk') ≠ .ok x := by
+      intro x hx
+      rw [hda, C14_data_rejects_other_class U.fields U.decl c [] ia' dk' hne] at hx
+      cases hx
+    have hc : adapt E fuel U.b none (.spec (some c) ia' dk') = .ok r := by
+      simp only [unionAdapt] at h2
+      split at h2 <;> simp only [adaptUnion2] at h2 <;> split at h2
+      · rename_i r' hr'; exact absurd hr' (hdata _)
+      · exact h2
+      · rename_i r' hr'; cases h2; exact hr'
+      · exact absurd h2 (hdata _)
+    exact Or.inr ⟨⟨c, ia', dk', path, params, rfl, hci, hvv⟩,
+      C14_checked_step E fuel U.b none _ r hc (by intro _ _ _ hp; cases hp)⟩
+
+/-- non-vacuity of `C14_union_built_partial`: both orders with a class of the class member (`m.Sub`), and the dataclass
+    itself with the dataclass listed first, are outside the excluded class and satisfy the other hypotheses -/
+example :
+    (∃ s r, unionAdapt exE 8 exClsFirst none (.spec (some "m.Sub") [("a", .lit "int" "3")] []) = .ok s
+      ∧ unionAdapt exE 8 exClsFirst none s = .ok r ∧ builtClass "d.Other" r = some "m.Sub")
+    ∧ (∃ s r, unionAdapt exE 8 exDataFirst none (.spec (some "d.Other") [("a", .lit "int" "3")] []) = .ok s
+      ∧ unionAdapt exE 8 exDataFirst none s = .ok r ∧ builtClass "d.Other" r = some "d.Other"
+      ∧ ¬ RebuiltClass exE 8 exDataFirst s) := by
+  refine ⟨⟨_, _, rfl, rfl, rfl⟩, ⟨_, _, rfl, rfl, rfl, ?_⟩⟩
+  intro h
+  exact absurd h.1 (by decide)
+
+example : ScalarFields exFields := by
+  intro p hp
+  simp only [exFields, List.mem_cons, List.mem_nil_iff, or_false] at hp
+  subst hp
+  exact ⟨"int", Or.inl rfl⟩
+
+/-- OPEN FINDING C14-union-dataclass-class-change-rejected, negation witness of "a valid class change between sources is
+    accepted": each of the two values alone is a valid configuration of `Union[d.Other, m.Base]`; given one after the
+    other — dataclass then class, or class then dataclass, in either member order — the parse fails: the second value is
+    merged key by key into the stored namespace of the first (`unionStore`), resp. the dataclass member meets the stored
+    class spec as its previous field values (`dataPrev`) -/
+theorem C14_union_kind_change_rejected_witness :
+    let d : Val := .spec (some "d.Other") [("a", .lit "int" "3")] []
+    let c : Val := .spec (some "m.Sub") [("b", .lit "str" "w")] []
+    isOk (unionAll exE 8 exDataFirst [d]) = true ∧ isOk (unionAll exE 8 exDataFirst [c]) = true
+    ∧ isOk (unionAll exE 8 exDataFirst [d, c]) = false ∧ isOk (unionAll exE 8 exDataFirst [c, d]) = false
+    ∧ isOk (unionAll exE 8 exClsFirst [d, c]) = false ∧ isOk (unionAll exE 8 exClsFirst [c, d]) = false := by decide
+
+/-! ## containers of classes at ANY depth (`List[Dict[str, Optional[Base]]]`, …) -/
+
+/-- every class spec inside an accepted value, at whatever depth the type puts it, names an import that is a subclass of
+    ITS declared element type (or a function returning one) and holds init_args valid for that very class -/
+def CheckedC (E : ClassEnv) : CTy → Val → Prop
+  | .cls b, v => ElemChecked E b v
+  | .opt t, v => isNone v = true ∨ CheckedC E t v
+  | .list t, v => ∃ ys, v = .lst ys ∧ ∀ y ∈ ys, CheckedC E t y
+  | .dict t, v => ∃ ys, v = .dct ys ∧ ∀ y ∈ ys, CheckedC E t y.2
+
+theorem listPrevs_none (n : Nat) : listPrevs none n = List.replicate n none := rfl
+
+/-- by structural induction over the type: an accepted value (no previous value: a first source) is checked at every
+    depth -/
+theorem C14_checked_nested (E : ClassEnv) (fuel : Nat) :
+    ∀ (t : CTy) (v r : Val), adaptC E fuel t none v = .ok r → CheckedC E t r
+  | .cls b, v, r, h => by
+    simp only [adaptC] at h
+    exact C14_checked_step E fuel b none v r h (by intro _ _ _ hp; cases hp)
+  | .opt t, v, r, h => by
+    simp only [adaptC] at h
+    split at h
+    · rename_i hn
+      cases h
+      exact Or.inl hn
+    · exact Or.inr (C14_checked_nested E fuel t v r h)
+  | .list t, v, r, h => by
+    simp only [adaptC, adaptListWith] at h
+    split at h
+    · cases h
+    · rename_i xs _
+      split at h
+      · cases h
+      · rename_i ys hys
+        cases h
+        refine ⟨ys, rfl, ?_⟩
+        intro y hy
+        have hp := (adaptItems_iff (fun _ p x => adaptC E fuel t p x) "" xs (listPrevs none xs.length) ys
+          (listPrevs_length none xs.length)).mp hys
+        obtain ⟨pv, hpv, hr⟩ := hp.of_mem_right y hy
+        have hnone : pv.1 = none := by
+          have := (List.of_mem_zip hpv).1
+          rw [listPrevs_none] at this
+          exact (List.mem_replicate.mp this).2
+        rw [hnone] at hr
+        exact C14_checked_nested E fuel t pv.2 y hr
+  | .dict t, v, r, h => by
+    simp only [adaptC, adaptDictWith] at h
+    split at h
+    · cases h
+    · rename_i kvs _
+      split at h
+      · cases h
+      · rename_i ys hys
+        cases h
+        refine ⟨ys, rfl, ?_⟩
+        intro y hy
+        obtain ⟨kv, _, _, hr⟩ := ((adaptEntries_iff (fun _ p x => adaptC E fuel t p x) "" none kvs ys).mp hys).of_mem_right y hy
+        exact C14_checked_nested E fuel t kv.2 y.2 hr
+
+/-- non-vacuity: `Dict[str, List[Optional[m.Base]]]` with a class name, a dict spec and a None two levels down is accepted
+    (and completed); an unrelated class at the same depth is rejected -/
+example :
+    (match adaptCAll exE 8 (.dict (.list (.opt (.cls "m.Base"))))
+        (.dct [("k", .lst [.lit "str" "Sub", .lit "NoneType" "None", .spec (some "m.Sub2") [("c", .lit "int" "4")] []])]) with
+     | .ok (.dct [(_, .lst [.spec (some a) _ _, .lit "NoneType" _, .spec (some b) _ _])]) => a == "m.Sub" && b == "m.Sub2"
+     | _ => false) = true
+    ∧ (match adaptCAll exE 8 (.dict (.list (.opt (.cls "m.Base")))) (.dct [("k", .lst [.lit "str" "m.Other"])]) with
+       | .error e => e == .notSubclass
+       | _ => false) = true := by decide
+
+/-- non-vacuity of `C14_walk_handles_only_specs`: a key that holds no spec is not handled even when it stands first -/
+example : discardWalk "." (fun k => k == "opt2") 4 ["seed", "opt2", "opt2.class_path"] = ["opt2"] := by decide
+
 /-- OPEN FINDING C14-dotted-sub-option-into-dict-entry.  `--table.dec.init_args.b=8` for `--table: Dict[str, Base]` whose
     entry `dec` is a `Sub2`: the Dict branch takes the whole remainder as ONE key, so the value `8` is adapted as the
     class of a new entry `dec.init_args.b` (an import failure) instead of becoming the init arg `b` of the entry `dec`;
